@@ -87,6 +87,9 @@ InvOutputIsSubstitution ==
     (Done /\ res.kind = "ok") =>
         LET c == CHOOSE c \in Range(FamSeq(fam)) : c.l = res.sel IN res.out = Subst(c.o, SigmaOf(res.bind))
 
+(* the pools, printed once so that the glue can render candidates / arguments in the driver's language *)
+ASSUME PrintT(<<"POOL", ToJson([c |-> AllC, au |-> ArgsU, ab |-> ArgsB])>>)
+
 (* pools for the configurations *)
 QU  == {1, 2, 3, 4, 7, 8, 9, 10, 12, 15, 16, 17, 18, 20}
 QB  == {1, 2, 3, 4, 5, 7, 8, 9, 10, 13, 14, 15}
